@@ -16,10 +16,13 @@ echo "$P-$K demo_clean_rc=$d0 demo_mutated_rc=$d1 $suite"
 ok=0; [ "$d0" = "0" ] && [ "$d1" != "0" ] && echo "$suite" | grep -q "baseline_missing=0" && ok=1
 if [ $ok = 1 ]; then
   mkdir -p $DEST; cp $OUT/patch.diff $OUT/demo.py $DEST/; cp $OUT/notes.md $DEST/notes.md 2>/dev/null
-  python3 - "$P" "$K" "$d0" "$d1" "$suite" <<'PY'
+  PROP=$P
+  case "$P" in F*) PROP=$(grep -o -i -m1 "property: *C[0-9][0-9]" $OUT/notes.md | grep -o "C[0-9][0-9]");; esac
+  [ -n "$PROP" ] || { echo "no property named in notes.md"; exit 2; }
+  python3 - "$P" "$K" "$d0" "$d1" "$suite" "$PROP" <<'PY'
 import json,sys
-p,k,d0,d1,suite=sys.argv[1:6]
-json.dump({"property":p,"id":f"{p}-{k}","source":"independent sub-agent (saw only the property text and a scratch worktree)",
+p,k,d0,d1,suite,prop=sys.argv[1:7]
+json.dump({"property":prop,"id":f"{p}-{k}","source":"independent sub-agent (saw only the property text(s) and a scratch worktree)",
  "confirmed":{"demo_rc_unmodified":int(d0),"demo_rc_with_change":int(d1),"suite":suite,
  "how":"tools/confirm_mutation.sh: apply in scratch worktree, run demo.py, run the repository suite against BASELINE.json, revert, run demo.py"},
  "needs_to_manifest":"see notes.md","detected_by":None}, open(f"/verif/seeded/{p}-{k}/meta.json","w"), indent=1)
